@@ -1342,7 +1342,7 @@ Definition digest_witness_cfg : config := mkCfg (mkTargets true true false) true
 Definition digest_witness_resp : response :=   (* the 401 after auto-read and binding *)
   mkResp true 401 None None true false EReq.
 Definition digest_witness : digest_oracle :=
-  mkDigest None (TResp 200 None (mkBody None None None None None None)).
+  mkDigest None (TResp 200 None (mkBody None None None None None None None)).
 
 Lemma digest_pinned_refuted :
   let '(r, _, _) := digest_mw Pinned digest_witness_cfg digest_witness digest_witness_resp in
@@ -1389,7 +1389,8 @@ Qed.
 Lemma binding_then_download_from_cache : forall cfg tg b r w,
   applicable tg r = Some w -> body_ok b r ->
   let r' := fst (parse_response_body tg b r) in
-  r_cached r' = true /\ (c_save cfg = true -> handle_download cfg b r' = b_write b).
+  r_cached r' = true /\
+  (c_save cfg = true -> handle_download cfg b r' = match b_write b with Some e => Some e | None => b_close b end).
 Proof.
   intros cfg tg b r w A B. rewrite parse_as_applicable, A.
   pose proof (applicable_present _ _ _ A) as P.
@@ -1399,14 +1400,47 @@ Proof.
   assert (r_cached (match um_of b w with None => bind w r1 | Some _ => r1 end) = true /\
           r_present (match um_of b w with None => bind w r1 | Some _ => r1 end) = true) as [C' P'].
   { destruct (um_of b w); [rewrite P1; auto|]. destruct w; cbn; rewrite P1; auto. }
-  destruct (um_of b w); cbn [fst] in *; (split; [exact C'|]); intro Sv; unfold handle_download; rewrite P', Sv, C'; reflexivity.
+  destruct (um_of b w); cbn [fst] in *; (split; [exact C'|]); intro Sv; unfold handle_download, copy_result; rewrite P', Sv, C'; reflexivity.
 Qed.
 
 (* without a target nothing reads the body first: the download streams it, a read error is the download's error *)
 Lemma download_streams_when_unread : forall cfg b r,
   c_save cfg = true -> r_present r = true -> r_cached r = false ->
-  handle_download cfg b r = match b_read b with Some e => Some e | None => b_write b end.
-Proof. intros cfg b r S P C. unfold handle_download. rewrite P, S, C. reflexivity. Qed.
+  handle_download cfg b r =
+  match b_read b with Some e => Some e | None => match b_write b with Some e => Some e | None => b_close b end end.
+Proof. intros cfg b r S P C. unfold handle_download, copy_result. rewrite P, S, C. cbn. destruct (b_read b); reflexivity. Qed.
+
+(* closing the output (SetOutputFile, or a writer that is an io.Closer): a copy that failed stays
+   failed with ITS error whatever Close returns; a failed close fails an otherwise good download *)
+Definition with_close (c : option err) (b : body_oracle) : body_oracle :=
+  mkBody (b_read b) (b_tf b) (b_um_res b) (b_um_req b) (b_um_com b) (b_write b) c.
+
+Lemma copy_error_kept_for_every_close : forall cfg b r e c,
+  c_save cfg = true -> r_present r = true -> copy_result b r = Some e ->
+  handle_download cfg (with_close c b) r = Some e.
+Proof.
+  intros cfg b r e c S P C. unfold handle_download. rewrite P, S. cbn [negb orb].
+  assert (copy_result (with_close c b) r = copy_result b r) as E by reflexivity. rewrite E, C. reflexivity.
+Qed.
+
+Lemma close_error_fails_download : forall cfg b r c,
+  c_save cfg = true -> r_present r = true -> copy_result b r = None ->
+  handle_download cfg (with_close c b) r = c.
+Proof.
+  intros cfg b r c S P C. unfold handle_download. rewrite P, S. cbn [negb orb].
+  assert (copy_result (with_close c b) r = copy_result b r) as E by reflexivity. rewrite E, C. reflexivity.
+Qed.
+
+(* the reworked download of the seeded change c-m1 (`err = oc.Close()` after the copy) loses the copy error *)
+Definition handle_download_close_overwrites (cfg : config) (b : body_oracle) (r : response) : option err :=
+  if negb (r_present r) || negb (c_save cfg) then None else b_close b.
+
+Lemma close_overwrite_loses_copy_error :
+  let cfg := mkCfg (mkTargets false false false) false None None None false true in
+  let b := mkBody (Some 7) None None None None None None in
+  let r := mkResp true 200 None None false false ENone in
+  handle_download_close_overwrites cfg b r = None /\ handle_download cfg b r = Some 7.
+Proof. vm_compute. split; reflexivity. Qed.
 
 Lemma no_download_without_save : forall cfg b r, c_save cfg = false -> handle_download cfg b r = None.
 Proof. exact handle_download_nosave. Qed.
@@ -1496,7 +1530,7 @@ Qed.
 (* ---------- a failing body read, whatever the body transformer ---------- *)
 
 Definition with_tf (tf : option err) (b : body_oracle) : body_oracle :=
-  mkBody (b_read b) tf (b_um_res b) (b_um_req b) (b_um_com b) (b_write b).
+  mkBody (b_read b) tf (b_um_res b) (b_um_req b) (b_um_com b) (b_write b) (b_close b).
 
 (* Response.ToBytes: the transformer is consulted only after a clean read (`err == nil && ...`):
    a read error is returned and recorded for EVERY transformer, installed or not, failing or not *)
@@ -1574,7 +1608,7 @@ Definition to_bytes_unguarded (b : body_oracle) (r : response) : response * opti
   end.
 
 Lemma unguarded_transformer_loses_read_error :
-  let b := mkBody (Some 7) None None None None None in
+  let b := mkBody (Some 7) None None None None None None in
   let r := mkResp true 200 None None false false ENone in
   to_bytes_unguarded b r = (set_cached true r, None) /\ to_bytes b r = (set_cached true (set_err (Some 7) r), Some 7).
 Proof. vm_compute. split; reflexivity. Qed.
